@@ -196,10 +196,10 @@ theorem SameNet.symm {a b : Sock} (h : SameNet a b) : SameNet b a := by
   obtain ⟨a1, a2, a3, a4, a5⟩ := h
   exact ⟨a1.symm, a2.symm, a3.symm, a4.symm, a5.symm⟩
 
-/-- an output of `sendto`: a started resolution, or an emission that passed the gate and the null check through an
+/-- an output of `sendto`: a resolution started for a packet that passed the gate, or an emission that passed the gate and the null check through an
     open transport -/
 def SendOut (fl : List Nat) (pfx : Bytes) (s : Sock) (o : Out) : Prop :=
-  (∃ h p, o = .resolve s.cid h p) ∨
+  (∃ h p data, o = .resolve s.cid h p data ∧ gate fl pfx data = true) ∨
   (∃ v data dest, o = .emit s.cid v data dest ∧ gate fl pfx data = true ∧ dest.isNull = false ∧
       (s.t4 = true ∨ s.t6 = true))
 
@@ -210,8 +210,8 @@ def SockOut (fl : List Nat) (pfx : Bytes) (s : Sock) (o : Out) : Prop :=
 theorem SendOut.of_net {fl : List Nat} {pfx : Bytes} {s s' : Sock} {o : Out} (hc : SameNet s s')
     (h : SendOut fl pfx s o) : SendOut fl pfx s' o := by
   obtain ⟨c1, _, _, c5, c6⟩ := hc
-  rcases h with ⟨h, p, rfl⟩ | ⟨v, data, dest, rfl, hg, hn, ht⟩
-  · exact Or.inl ⟨h, p, by rw [c1]⟩
+  rcases h with ⟨h, p, dta, rfl, hg⟩ | ⟨v, data, dest, rfl, hg, hn, ht⟩
+  · exact Or.inl ⟨h, p, dta, by rw [c1], hg⟩
   · exact Or.inr ⟨v, data, dest, by rw [c1], hg, hn, by rw [c5, c6]; exact ht⟩
 
 theorem SendOut.of_core {fl : List Nat} {pfx : Bytes} {s s' : Sock} {o : Out} (hc : SameCore s s')
@@ -234,7 +234,8 @@ theorem pushBounded_len (q : List (Bytes × Dest)) (x : Bytes × Dest) : (pushBo
     a `tunnelData` needs `al`; a test of the corresponding atom establishes the fact in the branch where it holds. -/
 def safeSock (al nn tr : Bool) : Prog → Bool
   | .done => true
-  | .act a k => (a != .transportSend || (al && nn && tr)) && (a != .tunnelData || al) && safeSock al nn tr k
+  | .act a k => (a != .transportSend || (al && nn && tr)) && (a != .tunnelData || al) && (a != .startResolve || al)
+      && (a != .queueAppend || al) && safeSock al nn tr k
   | .ite c t e =>
     safeSock (al || c == .allowed) nn (tr || c == .hasTransport) t && safeSock al (nn || c == .destIsNull) tr e
 
@@ -277,7 +278,7 @@ theorem interpSock_out (e : Env) : ∀ (p : Prog) (s : Sock) (al nn tr : Bool),
   | .act a k, s, al, nn, tr, hal, hnn, htr, hs => by
     intro o hmem
     simp only [safeSock, Bool.and_eq_true, Bool.or_eq_true] at hs
-    obtain ⟨⟨h1, h2⟩, h3⟩ := hs
+    obtain ⟨⟨⟨⟨h1, h2⟩, h4⟩, _⟩, h3⟩ := hs
     simp only [interpSock, List.mem_append] at hmem
     rcases hmem with hmem | hmem
     · cases a with
@@ -293,13 +294,16 @@ theorem interpSock_out (e : Env) : ∀ (p : Prog) (s : Sock) (al nn tr : Bool),
         exact Or.inr ⟨_, _, rfl, hal hh⟩
       | startResolve =>
         simp [actSock] at hmem
+        have hh : al = true := by simpa using h4
         subst hmem
-        exact Or.inl (Or.inl ⟨_, _, rfl⟩)
+        exact Or.inl (Or.inl ⟨_, _, _, rfl, hal hh⟩)
       | queueAppend => simp [actSock] at hmem
       | enable => simp [actSock] at hmem
       | sendto => simp [actSock] at hmem
       | exitData => simp [actSock] at hmem
-      | localDeliver => simp [actSock] at hmem
+      | deliverOwn => simp [actSock] at hmem
+      | deliverOther => simp [actSock] at hmem
+      | deliverRaw => simp [actSock] at hmem
     · have hc := actSock_core e s a
       have := interpSock_out e k (actSock e s a).1 al nn tr hal hnn
         (fun h => by rw [hc.2.2.2.2.1, hc.2.2.2.2.2]; exact htr h) h3 o hmem
@@ -621,12 +625,13 @@ theorem viaSock_queue (st : St) (cid : Nat) (ev : Ev) (h : ∀ s ∈ st.socks, s
 
 /-! ### level 2: ANY `exit_data` program that passes `safeExit` -/
 
-/-- `hop`: on the current path it is known that the cell's source IP equals the socket's hop IP.
-    An `enable` needs it; the test `srcIpIsHopIp` establishes it in its true-branch. -/
-def safeExit (hop : Bool) : Prog → Bool
+/-- `hop`: on the current path it is known that the cell's source IP equals the socket's hop IP.  `en`: it is known that
+    the socket is enabled.  An `enable` needs `hop`, a `sendto` needs `en`; the tests `srcIpIsHopIp` / `sockEnabled`
+    establish the facts in their true-branches, an `enable` establishes `en` for what follows. -/
+def safeExit (hop en : Bool) : Prog → Bool
   | .done => true
-  | .act a k => (a != .enable || hop) && safeExit hop k
-  | .ite c t e => safeExit (hop || c == .srcIpIsHopIp) t && safeExit hop e
+  | .act a k => (a != .enable || hop) && (a != .sendto || en) && safeExit hop (en || a == .enable) k
+  | .ite c t e => safeExit (hop || c == .srcIpIsHopIp) (en || c == .sockEnabled) t && safeExit hop en e
 
 theorem interpExit_none (e : XEnv) : ∀ p : Prog, interpExit e p none = (none, [])
   | .done => rfl
@@ -642,65 +647,88 @@ structure ExitSpec (e : XEnv) (x x' : Sock) (outs : List Out) : Prop where
   net : SameNet x x'
   keep : x.enabled = true → x'.enabled = true
   why : x'.enabled = true → x.enabled = true ∨ (e.srcIp == x.hopIp) = true
+  /-- a socket that is still closed afterwards has not been touched: nothing queued, no resolution started, no output -/
+  idle : x'.enabled = false → x' = x ∧ outs = []
   queue : x.queue.length ≤ Gen.QUEUE_MAXLEN → x'.queue.length ≤ Gen.QUEUE_MAXLEN
   outs : ∀ o ∈ outs, SockOut e.fl e.pfx x' o
 
-theorem actExit_spec (e : XEnv) (x : Sock) (a : Act) (hop : Bool) (hh : hop = true → (e.srcIp == x.hopIp) = true)
-    (ha : (a != .enable || hop) = true) : ExitSpec e x (actExit e x a).1 (actExit e x a).2 := by
+theorem actExit_spec (e : XEnv) (x : Sock) (a : Act) (hop en : Bool) (hh : hop = true → (e.srcIp == x.hopIp) = true)
+    (he : en = true → x.enabled = true)
+    (ha : (a != .enable || hop) = true) (hb : (a != .sendto || en) = true) :
+    ExitSpec e x (actExit e x a).1 (actExit e x a).2 := by
   cases a with
   | enable =>
     have hop' : hop = true := by simpa using ha
-    exact ⟨⟨rfl, rfl, rfl, rfl, rfl⟩, fun _ => rfl, fun _ => Or.inr (hh hop'), fun h => h, by simp [actExit]⟩
+    exact ⟨⟨rfl, rfl, rfl, rfl, rfl⟩, fun _ => rfl, fun _ => Or.inr (hh hop'), fun h => (by simp [actExit] at h),
+      fun h => h, by simp [actExit]⟩
   | sendto =>
     have hc := sendto_core e.fl e.pfx x e.data e.dest
-    refine ⟨hc.net, fun h => by rw [show (actExit e x .sendto).1.enabled = x.enabled from hc.2.2.2.1]; exact h,
-      fun h => Or.inl (by rw [← show (actExit e x .sendto).1.enabled = x.enabled from hc.2.2.2.1]; exact h),
-      fun h => sendto_queue _ _ _ _ _ h, ?_⟩
+    have hen : x.enabled = true := he (by simpa using hb)
+    have heq : (actExit e x .sendto).1.enabled = x.enabled := hc.2.2.2.1
+    refine ⟨hc.net, fun h => (by rw [heq]; exact h), fun h => Or.inl (by rw [← heq]; exact h),
+      fun h => (by rw [heq, hen] at h; cases h), fun h => sendto_queue _ _ _ _ _ h, ?_⟩
     intro o ho
     exact (sendto_out e.fl e.pfx x e.data e.dest o ho).of_net hc.net
-  | queueAppend => exact ⟨SameNet.refl x, id, Or.inl, id, by simp [actExit]⟩
-  | transportSend => exact ⟨SameNet.refl x, id, Or.inl, id, by simp [actExit]⟩
-  | startResolve => exact ⟨SameNet.refl x, id, Or.inl, id, by simp [actExit]⟩
-  | tunnelData => exact ⟨SameNet.refl x, id, Or.inl, id, by simp [actExit]⟩
-  | exitData => exact ⟨SameNet.refl x, id, Or.inl, id, by simp [actExit]⟩
-  | localDeliver => exact ⟨SameNet.refl x, id, Or.inl, id, by simp [actExit]⟩
+  | queueAppend => exact ⟨SameNet.refl x, id, Or.inl, fun _ => ⟨rfl, rfl⟩, id, by simp [actExit]⟩
+  | transportSend => exact ⟨SameNet.refl x, id, Or.inl, fun _ => ⟨rfl, rfl⟩, id, by simp [actExit]⟩
+  | startResolve => exact ⟨SameNet.refl x, id, Or.inl, fun _ => ⟨rfl, rfl⟩, id, by simp [actExit]⟩
+  | tunnelData => exact ⟨SameNet.refl x, id, Or.inl, fun _ => ⟨rfl, rfl⟩, id, by simp [actExit]⟩
+  | exitData => exact ⟨SameNet.refl x, id, Or.inl, fun _ => ⟨rfl, rfl⟩, id, by simp [actExit]⟩
+  | deliverOwn => exact ⟨SameNet.refl x, id, Or.inl, fun _ => ⟨rfl, rfl⟩, id, by simp [actExit]⟩
+  | deliverOther => exact ⟨SameNet.refl x, id, Or.inl, fun _ => ⟨rfl, rfl⟩, id, by simp [actExit]⟩
+  | deliverRaw => exact ⟨SameNet.refl x, id, Or.inl, fun _ => ⟨rfl, rfl⟩, id, by simp [actExit]⟩
 
 /-- soundness of `safeExit`, for every program and socket -/
-theorem interpExit_some (e : XEnv) : ∀ (p : Prog) (x : Sock) (hop : Bool),
-    (hop = true → (e.srcIp == x.hopIp) = true) → safeExit hop p = true →
+theorem interpExit_some (e : XEnv) : ∀ (p : Prog) (x : Sock) (hop en : Bool),
+    (hop = true → (e.srcIp == x.hopIp) = true) → (en = true → x.enabled = true) → safeExit hop en p = true →
     ∃ x', (interpExit e p (some x)).1 = some x' ∧ ExitSpec e x x' (interpExit e p (some x)).2
-  | .done, x, _, _, _ => ⟨x, rfl, SameNet.refl x, id, Or.inl, id, by simp [interpExit]⟩
-  | .act a k, x, hop, hh, hs => by
+  | .done, x, _, _, _, _, _ => ⟨x, rfl, SameNet.refl x, id, Or.inl, fun _ => ⟨rfl, rfl⟩, id, by simp [interpExit]⟩
+  | .act a k, x, hop, en, hh, he, hs => by
     simp only [safeExit, Bool.and_eq_true] at hs
-    have h1 := actExit_spec e x a hop hh hs.1
-    obtain ⟨x', hx', h2⟩ := interpExit_some e k (actExit e x a).1 hop
-      (fun h => by rw [h1.net.2.1]; exact hh h) hs.2
+    have h1 := actExit_spec e x a hop en hh he hs.1.1 hs.1.2
+    obtain ⟨x', hx', h2⟩ := interpExit_some e k (actExit e x a).1 hop (en || a == .enable)
+      (fun h => by rw [h1.net.2.1]; exact hh h)
+      (fun h => by
+        rcases (Bool.or_eq_true _ _).mp h with h | h
+        · exact h1.keep (he h)
+        · have : a = .enable := by simpa using h
+          subst this; rfl) hs.2
     refine ⟨x', by simp only [interpExit]; exact hx', ?_⟩
-    refine ⟨h1.net.trans h2.net, fun h => h2.keep (h1.keep h), ?_, fun h => h2.queue (h1.queue h), ?_⟩
+    refine ⟨h1.net.trans h2.net, fun h => h2.keep (h1.keep h), ?_, ?_, fun h => h2.queue (h1.queue h), ?_⟩
     · intro h
       rcases h2.why h with h | h
       · exact h1.why h
       · exact Or.inr (by rw [← h1.net.2.1]; exact h)
+    · intro h
+      obtain ⟨e2, o2⟩ := h2.idle h
+      obtain ⟨e1, o1⟩ := h1.idle (by rw [← e2]; exact h)
+      refine ⟨e2.trans e1, ?_⟩
+      simp only [interpExit, o1, o2, List.append_nil]
     · intro o ho
       simp only [interpExit, List.mem_append] at ho
       rcases ho with ho | ho
       · exact (h1.outs o ho).of_net h2.net
       · exact h2.outs o ho
-  | .ite c t el, x, hop, hh, hs => by
+  | .ite c t el, x, hop, en, hh, he, hs => by
     simp only [safeExit, Bool.and_eq_true] at hs
     by_cases hc : condExit e (some x) c = true
-    · have := interpExit_some e t x (hop || c == .srcIpIsHopIp) (by
+    · have := interpExit_some e t x (hop || c == .srcIpIsHopIp) (en || c == .sockEnabled) (by
         intro h
         rcases (Bool.or_eq_true _ _).mp h with h | h
         · exact hh h
         · have : c = .srcIpIsHopIp := by simpa using h
+          subst this; simpa [condExit] using hc) (by
+        intro h
+        rcases (Bool.or_eq_true _ _).mp h with h | h
+        · exact he h
+        · have : c = .sockEnabled := by simpa using h
           subst this; simpa [condExit] using hc) hs.1
       simpa only [interpExit, hc, if_true] using this
-    · have := interpExit_some e el x hop hh hs.2
+    · have := interpExit_some e el x hop en hh he hs.2
       have hc' : condExit e (some x) c = false := by simpa using hc
       simpa only [interpExit, hc', Bool.false_eq_true, if_false] using this
 
-theorem exit_data_prog_safe' : safeExit false Gen.exit_data_prog = true := by decide
+theorem exit_data_prog_safe' : safeExit false false Gen.exit_data_prog = true := by decide
 
 theorem exitData_flags (st : St) (srcIp : Bytes) (cid : Nat) (dest : Dest) (payload : Bytes) :
     (exitData st srcIp cid dest payload).1.flags = st.flags ∧ (exitData st srcIp cid dest payload).1.pfx = st.pfx ∧
@@ -722,8 +750,8 @@ theorem exitData_spec (st : St) (srcIp : Bytes) (cid : Nat) (dest : Dest) (paylo
     exact ⟨by simp, fun h => h, fun _ _ _ _ _ hinv => ⟨hinv, by simp⟩⟩
   | some x =>
     obtain ⟨hx, hc⟩ := find_cid hf
-    obtain ⟨x', hx', sp⟩ := interpExit_some ⟨st.flags, st.pfx, srcIp, payload, dest⟩ Gen.exit_data_prog x false
-      (by simp) exit_data_prog_safe'
+    obtain ⟨x', hx', sp⟩ := interpExit_some ⟨st.flags, st.pfx, srcIp, payload, dest⟩ Gen.exit_data_prog x false false
+      (by simp) (by simp) exit_data_prog_safe'
     simp only [hx']
     refine ⟨fun o ho => Or.inr ⟨x', sp.outs o ho⟩, ?_, ?_⟩
     · intro h s hs
@@ -748,60 +776,103 @@ theorem exitData_spec (st : St) (srcIp : Bytes) (cid : Nat) (dest : Dest) (paylo
       · exact hinv s hs
       · subst hs; exact hnew
 
+/-- the socket table after an `exit_data` call: every enabled socket was enabled before, or is the socket of this
+    circuit id and the cell's source IP is its hop IP; a socket that stays closed is untouched -/
+theorem exitData_why (st : St) (srcIp : Bytes) (cid : Nat) (dest : Dest) (payload : Bytes) :
+    ∀ s' ∈ (exitData st srcIp cid dest payload).1.socks,
+      (s'.enabled = true → (∃ s ∈ st.socks, s.cid = s'.cid ∧ s.hopIp = s'.hopIp ∧ s.enabled = true)
+        ∨ (srcIp = s'.hopIp ∧ cid = s'.cid)) ∧
+      (s'.enabled = false → s' ∈ st.socks) := by
+  unfold exitData
+  cases hf : st.socks.find? (fun s => s.cid == cid) with
+  | none =>
+    simp only [interpExit_none]
+    exact fun s' hs' => ⟨fun h => Or.inl ⟨s', hs', rfl, rfl, h⟩, fun _ => hs'⟩
+  | some x =>
+    obtain ⟨hx, hc⟩ := find_cid hf
+    obtain ⟨x', hx', sp⟩ := interpExit_some ⟨st.flags, st.pfx, srcIp, payload, dest⟩ Gen.exit_data_prog x false false
+      (by simp) (by simp) exit_data_prog_safe'
+    simp only [hx']
+    intro s' hs'
+    rcases mem_setSock hs' with hs' | hs'
+    · exact ⟨fun h => Or.inl ⟨s', hs', rfl, rfl, h⟩, fun _ => hs'⟩
+    · subst hs'
+      refine ⟨fun h => ?_, fun h => by rw [(sp.idle h).1]; exact hx⟩
+      rcases sp.why h with h | h
+      · exact Or.inl ⟨x, hx, sp.net.1.symm, sp.net.2.1.symm, h⟩
+      · have hip : srcIp = x.hopIp := by simpa using h
+        exact Or.inr ⟨by rw [sp.net.2.1]; exact hip, by rw [sp.net.1]; exact hc.symm⟩
+
+/-- with `idle`: no output of an `exit_data` call unless the socket ends up enabled -/
+theorem exitData_idle (st : St) (srcIp : Bytes) (cid : Nat) (dest : Dest) (payload : Bytes)
+    (h : ∀ s' ∈ (exitData st srcIp cid dest payload).1.socks, s'.cid = cid → s'.enabled = false) :
+    (exitData st srcIp cid dest payload).2 = [] := by
+  unfold exitData at h ⊢
+  cases hf : st.socks.find? (fun s => s.cid == cid) with
+  | none => simp only [interpExit_none]
+  | some x =>
+    obtain ⟨hx, hc⟩ := find_cid hf
+    obtain ⟨x', hx', sp⟩ := interpExit_some ⟨st.flags, st.pfx, srcIp, payload, dest⟩ Gen.exit_data_prog x false false
+      (by simp) (by simp) exit_data_prog_safe'
+    simp only [hf, hx'] at h ⊢
+    have hmem : x' ∈ setSock st.socks x' := mem_setSock_self ⟨x, hx, sp.net.1.symm⟩
+    exact (sp.idle (h x' hmem (by rw [sp.net.1]; exact hc))).2
+
 /-! ### level 3: ANY `on_data` dispatch program that passes `safeOnData` -/
 
-/-- `nn`: on the current path the destination is known not to be ("0.0.0.0", 0); `exitData` needs it -/
-def safeOnData (nn : Bool) : Prog → Bool
+/-- facts known on the current path: `nn` the destination is not ("0.0.0.0", 0); `no` the cell is NOT taken as a cell of
+    a circuit this node originated; `nd` the payload is not itself a DATA cell.  `exitData` needs `nn` and `no`;
+    `deliverOwn` (re-dispatch through on_packet_from_circuit) needs `nd`, which is what makes it a local delivery. -/
+def safeOnData (nn no nd : Bool) : Prog → Bool
   | .done => true
-  | .act a k => (a != .exitData || nn) && safeOnData nn k
-  | .ite c t e => safeOnData nn t && safeOnData (nn || c == .destIsNull) e
+  | .act a k => (a != .exitData || (nn && no)) && (a != .deliverOwn || nd) && safeOnData nn no nd k
+  | .ite c t e =>
+    safeOnData nn no nd t && safeOnData (nn || c == .destIsNull) (no || c == .ownCircuit) (nd || c == .nestedData) e
 
-theorem on_data_prog_safe' : safeOnData false Gen.on_data_prog = true := by decide
+theorem on_data_prog_safe' : safeOnData false false false Gen.on_data_prog = true := by decide
 
-theorem localDeliver_loc (e : DEnv) (st : St) : ∀ o ∈ localDeliver e st, ∃ c k, o = Out.loc c k := by
-  intro o ho
-  unfold localDeliver at ho
-  split at ho
-  · simp only at ho
-    split at ho
-    · simp at ho
-    · simp at ho; exact ⟨_, _, ho⟩
-  · simp at ho
+theorem actOnData_loc (e : DEnv) (st : St) (a : Act) (ha : a ≠ .exitData) :
+    (actOnData e st a).1 = st ∧ ∀ o ∈ (actOnData e st a).2, ∃ c k, o = Out.loc c k := by
+  cases a with
+  | exitData => exact absurd rfl ha
+  | deliverOwn => exact ⟨rfl, by simp [actOnData]⟩
+  | deliverOther => exact ⟨rfl, by simp [actOnData]⟩
+  | deliverRaw => exact ⟨rfl, by simp [actOnData]⟩
+  | queueAppend => exact ⟨rfl, by simp [actOnData]⟩
+  | transportSend => exact ⟨rfl, by simp [actOnData]⟩
+  | startResolve => exact ⟨rfl, by simp [actOnData]⟩
+  | tunnelData => exact ⟨rfl, by simp [actOnData]⟩
+  | enable => exact ⟨rfl, by simp [actOnData]⟩
+  | sendto => exact ⟨rfl, by simp [actOnData]⟩
 
 theorem actOnData_flags (e : DEnv) (st : St) (a : Act) :
-    (actOnData e st a).1.flags = st.flags ∧ (actOnData e st a).1.pfx = st.pfx := by
-  cases a <;> first | exact ⟨rfl, rfl⟩ | exact ⟨(exitData_flags _ _ _ _ _).1, (exitData_flags _ _ _ _ _).2.1⟩
+    (actOnData e st a).1.flags = st.flags ∧ (actOnData e st a).1.pfx = st.pfx ∧ (actOnData e st a).1.circs = st.circs := by
+  by_cases ha : a = .exitData
+  · subst ha
+    exact ⟨(exitData_flags _ _ _ _ _).1, (exitData_flags _ _ _ _ _).2.1, (exitData_flags _ _ _ _ _).2.2.1⟩
+  · rw [(actOnData_loc e st a ha).1]; exact ⟨rfl, rfl, rfl⟩
 
 theorem actOnData_weak (e : DEnv) (st : St) (a : Act) : ∀ o ∈ (actOnData e st a).2, WeakOut st.flags st.pfx o := by
-  cases a with
-  | exitData => exact (exitData_spec _ _ _ _ _).1
-  | localDeliver => exact fun o ho => Or.inl (localDeliver_loc e st o ho)
-  | queueAppend => simp [actOnData]
-  | transportSend => simp [actOnData]
-  | startResolve => simp [actOnData]
-  | tunnelData => simp [actOnData]
-  | enable => simp [actOnData]
-  | sendto => simp [actOnData]
+  by_cases ha : a = .exitData
+  · subst ha; exact (exitData_spec _ _ _ _ _).1
+  · exact fun o ho => Or.inl ((actOnData_loc e st a ha).2 o ho)
 
 theorem actOnData_queue (e : DEnv) (st : St) (a : Act) (h : ∀ s ∈ st.socks, s.queue.length ≤ Gen.QUEUE_MAXLEN) :
     ∀ s ∈ (actOnData e st a).1.socks, s.queue.length ≤ Gen.QUEUE_MAXLEN := by
-  cases a <;> first | exact h | exact (exitData_spec _ _ _ _ _).2.1 h
+  by_cases ha : a = .exitData
+  · subst ha; exact (exitData_spec _ _ _ _ _).2.1 h
+  · rw [(actOnData_loc e st a ha).1]; exact h
 
 theorem actOnData_inv (e : DEnv) (base : List (Nat × Bytes)) (Q : List Ev) (sp : Nat)
     (hev : Ev.data e.srcIp sp e.cid e.dest e.payload ∈ Q) (st : St) (a : Act) (nn : Bool)
     (hnn : nn = true → e.dest.isNull = false) (ha : (a != .exitData || nn) = true) (hinv : Inv base Q st) :
     Inv base Q (actOnData e st a).1 ∧ ∀ o ∈ (actOnData e st a).2, StrongOut base Q st.flags st.pfx o := by
-  cases a with
-  | exitData =>
+  by_cases hx : a = .exitData
+  · subst hx
     have : nn = true := by simpa using ha
     exact (exitData_spec _ _ _ _ _).2.2 base Q sp hev (hnn this) hinv
-  | localDeliver => exact ⟨hinv, fun o ho => Or.inl (localDeliver_loc e st o ho)⟩
-  | queueAppend => exact ⟨hinv, by simp [actOnData]⟩
-  | transportSend => exact ⟨hinv, by simp [actOnData]⟩
-  | startResolve => exact ⟨hinv, by simp [actOnData]⟩
-  | tunnelData => exact ⟨hinv, by simp [actOnData]⟩
-  | enable => exact ⟨hinv, by simp [actOnData]⟩
-  | sendto => exact ⟨hinv, by simp [actOnData]⟩
+  · rw [(actOnData_loc e st a hx).1]
+    exact ⟨hinv, fun o ho => Or.inl ((actOnData_loc e st a hx).2 o ho)⟩
 
 theorem interpOnData_flags (e : DEnv) : ∀ (p : Prog) (st : St),
     (interpOnData e p st).1.flags = st.flags ∧ (interpOnData e p st).1.pfx = st.pfx
@@ -810,7 +881,7 @@ theorem interpOnData_flags (e : DEnv) : ∀ (p : Prog) (st : St),
     simp only [interpOnData]
     have h1 := actOnData_flags e st a
     have h2 := interpOnData_flags e k (actOnData e st a).1
-    exact ⟨h2.1.trans h1.1, h2.2.trans h1.2⟩
+    exact ⟨h2.1.trans h1.1, h2.2.trans h1.2.1⟩
   | .ite c t el, st => by
     simp only [interpOnData]
     split
@@ -825,7 +896,7 @@ theorem interpOnData_weak (e : DEnv) : ∀ (p : Prog) (st : St), ∀ o ∈ (inte
     rcases ho with ho | ho
     · exact actOnData_weak e st a o ho
     · have := interpOnData_weak e k (actOnData e st a).1 o ho
-      rwa [(actOnData_flags e st a).1, (actOnData_flags e st a).2] at this
+      rwa [(actOnData_flags e st a).1, (actOnData_flags e st a).2.1] at this
   | .ite c t el, st => by
     simp only [interpOnData]
     split
@@ -844,38 +915,134 @@ theorem interpOnData_queue (e : DEnv) : ∀ (p : Prog) (st : St), (∀ s ∈ st.
     · exact interpOnData_queue e t st h
     · exact interpOnData_queue e el st h
 
-/-- soundness of `safeOnData` -/
+/-- soundness of `safeOnData` for the opening invariant -/
 theorem interpOnData_inv (e : DEnv) (base : List (Nat × Bytes)) (Q : List Ev) (sp : Nat)
-    (hev : Ev.data e.srcIp sp e.cid e.dest e.payload ∈ Q) : ∀ (p : Prog) (st : St) (nn : Bool),
-    (nn = true → e.dest.isNull = false) → safeOnData nn p = true → Inv base Q st →
+    (hev : Ev.data e.srcIp sp e.cid e.dest e.payload ∈ Q) : ∀ (p : Prog) (st : St) (nn no nd : Bool),
+    (nn = true → e.dest.isNull = false) → safeOnData nn no nd p = true → Inv base Q st →
     Inv base Q (interpOnData e p st).1 ∧ ∀ o ∈ (interpOnData e p st).2, StrongOut base Q st.flags st.pfx o
-  | .done, st, _, _, _, hinv => ⟨hinv, by simp [interpOnData]⟩
-  | .act a k, st, nn, hnn, hs, hinv => by
+  | .done, st, _, _, _, _, _, hinv => ⟨hinv, by simp [interpOnData]⟩
+  | .act a k, st, nn, no, nd, hnn, hs, hinv => by
     simp only [safeOnData, Bool.and_eq_true] at hs
-    have h1 := actOnData_inv e base Q sp hev st a nn hnn hs.1 hinv
-    have h2 := interpOnData_inv e base Q sp hev k (actOnData e st a).1 nn hnn hs.2 h1.1
+    have ha : (a != .exitData || nn) = true := by
+      have := hs.1.1
+      rcases (Bool.or_eq_true _ _).mp this with h | h
+      · simp [h]
+      · have : nn = true := ((Bool.and_eq_true _ _).mp h).1
+        simp [this]
+    have h1 := actOnData_inv e base Q sp hev st a nn hnn ha hinv
+    have h2 := interpOnData_inv e base Q sp hev k (actOnData e st a).1 nn no nd hnn hs.2 h1.1
     simp only [interpOnData]
     refine ⟨h2.1, ?_⟩
     intro o ho
     rcases List.mem_append.mp ho with ho | ho
     · exact h1.2 o ho
     · have := h2.2 o ho
-      rwa [(actOnData_flags e st a).1, (actOnData_flags e st a).2] at this
-  | .ite c t el, st, nn, hnn, hs, hinv => by
+      rwa [(actOnData_flags e st a).1, (actOnData_flags e st a).2.1] at this
+  | .ite c t el, st, nn, no, nd, hnn, hs, hinv => by
     simp only [safeOnData, Bool.and_eq_true] at hs
     simp only [interpOnData]
     by_cases hc : condOnData e st c = true
     · simp only [hc, if_true]
-      exact interpOnData_inv e base Q sp hev t st nn hnn hs.1 hinv
+      exact interpOnData_inv e base Q sp hev t st nn no nd hnn hs.1 hinv
     · have hc' : condOnData e st c = false := by simpa using hc
       simp only [hc', Bool.false_eq_true, if_false]
-      refine interpOnData_inv e base Q sp hev el st _ ?_ hs.2 hinv
+      refine interpOnData_inv e base Q sp hev el st _ _ _ ?_ hs.2 hinv
       intro h
       rcases (Bool.or_eq_true _ _).mp h with h | h
       · exact hnn h
       · have : c = .destIsNull := by simpa using h
         subst this
         simpa [condOnData] using hc'
+
+/-- `ownCircuit` depends on the circuit table only -/
+theorem condOwn_circs (e : DEnv) (st st' : St) (h : st'.circs = st.circs) :
+    condOnData e st' .ownCircuit = condOnData e st .ownCircuit := by
+  simp only [condOnData, h]
+
+/-- soundness of `safeOnData` for "which event flipped `enabled`": after the dispatch of a DATA cell, an enabled socket was
+    enabled before, or it is the socket named by the cell, the cell's source IP is its hop IP, the destination is not
+    null and the cell was NOT taken as a cell of an own circuit -/
+theorem interpOnData_why (e : DEnv) (st0 : St) : ∀ (p : Prog) (st : St) (nn no nd : Bool), st.circs = st0.circs →
+    (nn = true → e.dest.isNull = false) → (no = true → condOnData e st0 .ownCircuit = false) →
+    safeOnData nn no nd p = true →
+    ∀ s' ∈ (interpOnData e p st).1.socks, s'.enabled = true →
+      (∃ s ∈ st.socks, s.cid = s'.cid ∧ s.hopIp = s'.hopIp ∧ s.enabled = true) ∨
+      (e.srcIp = s'.hopIp ∧ e.cid = s'.cid ∧ e.dest.isNull = false ∧ condOnData e st0 .ownCircuit = false)
+  | .done, st, _, _, _, _, _, _, _ => fun s' hs' h => Or.inl ⟨s', hs', rfl, rfl, h⟩
+  | .act a k, st, nn, no, nd, hc, hnn, hno, hs => by
+    simp only [safeOnData, Bool.and_eq_true] at hs
+    intro s' hs' hen
+    simp only [interpOnData] at hs'
+    have hc1 : (actOnData e st a).1.circs = st0.circs := (actOnData_flags e st a).2.2.trans hc
+    rcases interpOnData_why e st0 k (actOnData e st a).1 nn no nd hc1 hnn hno hs.2 s' hs' hen with
+      ⟨s1, hs1, i1, i2, en1⟩ | h
+    · by_cases hx : a = .exitData
+      · subst hx
+        have hfacts : nn = true ∧ no = true := by simpa using hs.1.1
+        rcases (exitData_why st e.srcIp e.cid e.dest e.payload s1 hs1).1 en1 with ⟨s, hs, j1, j2, en⟩ | ⟨j1, j2⟩
+        · exact Or.inl ⟨s, hs, j1.trans i1, j2.trans i2, en⟩
+        · exact Or.inr ⟨j1.trans i2, j2.trans i1, hnn hfacts.1, hno hfacts.2⟩
+      · rw [(actOnData_loc e st a hx).1] at hs1
+        exact Or.inl ⟨s1, hs1, i1, i2, en1⟩
+    · exact Or.inr h
+  | .ite c t el, st, nn, no, nd, hc, hnn, hno, hs => by
+    simp only [safeOnData, Bool.and_eq_true] at hs
+    simp only [interpOnData]
+    by_cases hcc : condOnData e st c = true
+    · simp only [hcc, if_true]
+      exact interpOnData_why e st0 t st nn no nd hc hnn hno hs.1
+    · have hc' : condOnData e st c = false := by simpa using hcc
+      simp only [hc', Bool.false_eq_true, if_false]
+      refine interpOnData_why e st0 el st _ _ _ hc ?_ ?_ hs.2
+      · intro h
+        rcases (Bool.or_eq_true _ _).mp h with h | h
+        · exact hnn h
+        · have : c = .destIsNull := by simpa using h
+          subst this
+          simpa [condOnData] using hc'
+      · intro h
+        rcases (Bool.or_eq_true _ _).mp h with h | h
+        · exact hno h
+        · have : c = .ownCircuit := by simpa using h
+          subst this
+          rw [← condOwn_circs e st0 st hc]; exact hc'
+
+theorem sockStep_enabled (fl : List Nat) (pfx : Bytes) (s : Sock) (ev : Ev) :
+    (sockStep fl pfx s ev).1.enabled = s.enabled := by
+  cases ev with
+  | setFlags f => rfl
+  | data ip sp c d p => rfl
+  | open4 c => simp only [sockStep]; split <;> rfl
+  | open6 c =>
+    simp only [sockStep]
+    split
+    · exact (flush_core _ _ _ _).2.2.2.1
+    · rfl
+  | resolved c idx infos =>
+    simp only [sockStep]
+    split
+    · rfl
+    · split
+      · rfl
+      · exact (sendto_core _ _ _ _ _).2.2.2.1
+  | outside c v6 host port payload =>
+    simp only [sockStep]
+    split
+    · rfl
+    · exact (recv_core _ _ _ _ _).2.2.2.1
+
+theorem viaSock_why (st : St) (cid : Nat) (ev : Ev) : ∀ s' ∈ (viaSock st cid ev).1.socks, s'.enabled = true →
+    ∃ s ∈ st.socks, s.cid = s'.cid ∧ s.hopIp = s'.hopIp ∧ s.enabled = true := by
+  unfold viaSock
+  split
+  · exact fun s' hs' h => ⟨s', hs', rfl, rfl, h⟩
+  · rename_i s hf
+    intro s' hs' h
+    rcases mem_setSock hs' with hs' | hs'
+    · exact ⟨s', hs', rfl, rfl, h⟩
+    · subst hs'
+      obtain ⟨i1, i2⟩ := sockStep_ids st.flags st.pfx s ev
+      exact ⟨s, (find_cid hf).1, i1.symm, i2.symm, by rw [← sockStep_enabled st.flags st.pfx s ev]; exact h⟩
 
 /-! ### one step of the community, and histories -/
 
@@ -893,7 +1060,7 @@ theorem step_inv (base : List (Nat × Bytes)) (P : List Ev) (st : St) (ev : Ev) 
   cases ev with
   | setFlags f => exact ⟨hinv.mono _, by simp [step]⟩
   | data ip sp c d p =>
-    exact interpOnData_inv ⟨ip, sp, c, d, p⟩ base _ sp List.mem_cons_self Gen.on_data_prog st false (by simp)
+    exact interpOnData_inv ⟨ip, sp, c, d, p⟩ base _ sp List.mem_cons_self Gen.on_data_prog st false false false (by simp)
       on_data_prog_safe' (hinv.mono _)
   | open4 c => exact viaSock_inv base P st c _ hinv
   | open6 c => exact viaSock_inv base P st c _ hinv
@@ -935,7 +1102,7 @@ theorem step_emit_opened (base : List (Nat × Bytes)) (P : List Ev) (st : St) (e
     ∃ ip, (c, ip) ∈ base ∧ ∃ sp d p, Ev.data ip sp c d p ∈ ev :: P ∧ d.isNull = false := by
   rcases (step_inv base P st ev hinv).2 _ hmem with ⟨c', k, h⟩ | ⟨s', hb, hi, hso⟩
   · cases h
-  · rcases hso with (⟨h, p, he⟩ | ⟨v', data', dest', he, _, _, ht⟩) | ⟨payload, src, he, _⟩
+  · rcases hso with (⟨h, p, dta, he, _⟩ | ⟨v', data', dest', he, _, _, ht⟩) | ⟨payload, src, he, _⟩
     · cases he
     · cases he
       have hen : s'.enabled = true := by
@@ -971,6 +1138,8 @@ def OutOK (fl : List Nat) (pfx : Bytes) : Out → Prop
       Spec.allowed (fl.contains Gen.PEER_FLAG_EXIT_BT) (fl.contains Gen.PEER_FLAG_EXIT_IPV8) pfx data = true
       ∧ dest.isNull = false
   | .tunnel _ _ _ data _ =>
+      Spec.allowed (fl.contains Gen.PEER_FLAG_EXIT_BT) (fl.contains Gen.PEER_FLAG_EXIT_IPV8) pfx data = true
+  | .resolve _ _ _ data =>     -- a DNS lookup for a tunnel-supplied name is outside-world traffic as well
       Spec.allowed (fl.contains Gen.PEER_FLAG_EXIT_BT) (fl.contains Gen.PEER_FLAG_EXIT_IPV8) pfx data = true
   | _ => True
 
